@@ -749,7 +749,7 @@ def process_history(R):
             return f"raised {type(e).__name__}: {str(e)[:80]}"
 
     def same(got, want):
-        return type(got) is type(want) and got == want
+        return isinstance(got, (int, float)) and not isinstance(got, bool) and got == want
 
     for gname, progs in _PROCESS_GROUPS.items():
         seqs = [list(p) for p in itertools.permutations(range(len(progs)), 2)] + [list(range(len(progs))), list(reversed(range(len(progs))))]
@@ -783,7 +783,7 @@ def process_history(R):
                     for src, args, want in progs:
                         got = run_one(src, args)
                         print(src); print('   f(%r) = %r, expected %r' % (args, got, want))
-                    if not (type(got) is type(want) and got == want): print('REPLAY-CONFIRMED')
+                    if not (isinstance(got, (int, float)) and got == want): print('REPLAY-CONFIRMED')
                     """, progs=[list(progs[k]) for k in bad[0]], opt=opt)
             R.bounded(f"E2E.process-history[{gname},{'opt' if opt else 'plain'}]", "nsl.Compiler::Compiler.Compile", bad is None, n,
                       detail=f"{n} compilations" if bad is None else
